@@ -117,9 +117,15 @@ class EngineBase:
         node = tree
         for p in parts[1:]:
             found = None
-            for ch in node.body:
+            stack = list(node.body)
+            while stack:                 # definitions guarded by a module-level ``if`` / ``try`` count as well
+                ch = stack.pop(0)
                 if isinstance(ch, (ast.FunctionDef, ast.ClassDef)) and ch.name == p:
                     found = ch
+                elif isinstance(ch, ast.If):
+                    stack = ch.body + ch.orelse + stack
+                elif isinstance(ch, ast.Try):
+                    stack = ch.body + ch.orelse + ch.finalbody + stack
             if found is None:
                 raise ContractError("contract key %s does not resolve (no %r)" % (qual, p))
             node = found
